@@ -707,9 +707,11 @@ impl Blockchain {
     }
 
     fn remove_block_transactions(&self, block_hash: &SaitoHash, mempool: &mut Mempool) {
+        // (the same verdict that admitted the transaction: an input can also have left the retention window
+        // since then, which the utxoset alone does not tell)
         mempool
             .transactions
-            .retain(|_, tx| tx.validate_against_utxoset(&self.utxoset));
+            .retain(|_, tx| tx.validate(&self.utxoset, self, true));
         let block = self.get_block(block_hash).unwrap();
         // we call delete_tx after removing invalidated txs, to make sure routing work is calculated after removing all the txs
         mempool.delete_transactions(&block.transactions);
